@@ -191,6 +191,61 @@ theorem script_runs_to_release (t0 : Toc) (scripts : Nat → List Step) (hd : Di
   | ready a b c d => rw [h1] at d; simp [tailOK] at d
   | written a b c => rw [h1] at c; simp [postOK] at c
 
+/-! ### The constructor that fails after it took the lock
+
+`SegmentWriter.__init__` acquires the lock first; reading the TOC, creating the temp storage, the
+codec's `new_segment` / `per_document_writer` / `field_writer` can raise afterwards.  As repaired in
+round 3 (`fix: SegmentWriter releases the write lock when its constructor fails after acquiring it`)
+the lifetime then is: acquire, TOC read (attempted), some storage operations, release. -/
+
+/-- the script of a writer whose constructor fails after `n` storage operations -/
+def failedInit (n : Nat) : List Step := .tryLock :: .readToc :: (List.replicate n .io ++ [.release])
+
+/-- the same lifetime before the repair: nobody ever releases -/
+def failedInitLeak (n : Nat) : List Step := .tryLock :: .readToc :: List.replicate n .io
+
+theorem tailOK_ios (n : Nat) : tailOK (List.replicate n .io ++ [.release]) = true := by
+  induction n with
+  | zero => rfl
+  | succ n ih => simpa [List.replicate_succ, tailOK] using ih
+
+/-- **C04.failed_init_disciplined.**  The failed-constructor lifetime is a `LockDiscipline` script, so
+    `mutex`, `generation`, `no_lost_update`, `lock_released` and `script_runs_to_release` cover it:
+    it publishes nothing and hands the lock back. -/
+theorem failed_init_disciplined (n : Nat) : LockDiscipline (failedInit n) = true := by
+  simp only [failedInit, LockDiscipline]
+  exact tailOK_ios n
+
+/-- **C04.finished_writer_not_holder.**  Any disciplined writer — in particular one whose constructor
+    failed (`failed_init_disciplined`) — left alone until its script has run out, has released: it
+    does not hold the lock and is not the recorded holder, whatever the others did before. -/
+theorem finished_writer_not_holder (t0 : Toc) (scripts : Nat → List Step) (hd : Disciplined scripts)
+    (w : Nat) (sched : List Nat) :
+    let s := exec (init t0 scripts) sched
+    let s' := exec s (List.replicate (s.ws w).script.length w)
+    (s'.ws w).script = [] ∧ (s'.ws w).holds = false ∧ s'.holder ≠ some w := by
+  intro s s'
+  obtain ⟨h1, h2⟩ := script_runs_to_release t0 scripts hd sched w
+  refine ⟨h1, h2, ?_⟩
+  intro hh
+  have hinv : Inv t0 s' := by
+    show Inv t0 (exec (exec (init t0 scripts) sched) _)
+    exact inv_exec (inv_exec (inv_init t0 scripts hd) sched) _
+  have := (hinv.mutex w).2 hh
+  rw [h2] at this
+  cases this
+
+/-- before the repair the lifetime was not a disciplined script, and the index was dead-locked: the
+    failed writer keeps the lock, every later writer gets `LockError` -/
+example : LockDiscipline (failedInitLeak 1) = false := by decide
+example : let s := exec (init ⟨5, [1]⟩ fun w => if w = 0 then failedInitLeak 1 else
+      if w = 1 then [.tryLock, .readToc, .work 7, .writeToc, .release] else []) [0, 0, 0, 1, 1, 1]
+    s.holder = some 0 ∧ (s.ws 1).failed = true ∧ s.toc = ⟨5, [1]⟩ := by decide
+/-- after it: the second writer commits -/
+example : let s := exec (init ⟨5, [1]⟩ fun w => if w = 0 then failedInit 1 else
+      if w = 1 then [.tryLock, .readToc, .work 7, .writeToc, .release] else []) [0, 0, 0, 0, 1, 1, 1, 1, 1]
+    s.holder = none ∧ (s.ws 1).failed = false ∧ s.toc = ⟨6, [1, 7]⟩ := by decide
+
 /-! ### A concrete instance -/
 namespace Example
 
